@@ -145,7 +145,15 @@ func (pq *KeyGroupPriorityQueue) Pop() ([]byte, bool) {
 
 func (pq *KeyGroupPriorityQueue) Push(data []byte) {
 	pq.loadFromDB()
-	pq.cache.Push(data)
+
+	// While some of the key group's timers are only in the DB, the cache holds
+	// the smallest ones. A new timer may join it only if it sorts before the
+	// largest cached timer; otherwise it would be handed out ahead of smaller
+	// timers that are not cached.
+	max, hasMax := pq.cache.PeekLast()
+	if pq.allDataInCache || (hasMax && bytes.Compare(data, max) < 0) {
+		pq.cache.Push(data)
+	}
 
 	// If pushing the item exceeded the cache capacity, evict items until we're back under the limit
 	for pq.cache.IsFull() && !pq.cache.IsEmpty() {
